@@ -100,6 +100,10 @@ def run(ctx):
         return ctx.finish()
     ctx.build_lib()
     run_traces(ctx, PRIMS_Q if ctx.tier == 'quick' else PRIMS_T)
+    # spec -> code: every behaviour of the abstract mutex up to a length bound, enumerated by TLC, replayed by the conductor
+    from checks import synccheck
+    path, n = synccheck.tlc_scripts(ctx, 'mutex', 5 if ctx.tier == 'quick' else 7)
+    synccheck.run_modes(ctx, [('cmutex', n)], 'Trace_LockA', 'Trace_LockA.cfg', vcpus=1, extra_args=['--scripts', path])
     run_tier_b(ctx)
     ctx.assumptions = ['sequential consistency in the specifications', 'interrupt reasons may surface at a later blocking call '
                        '(an EINTR failure is accepted whenever an interrupt was issued to that thread earlier in the execution)']
